@@ -266,6 +266,25 @@ add('C06',
     "It cannot establish O(N) and says nothing about stretched or "
     "heterogeneous models (not claimed by the property).")
 
+add('C10',
+    "Hypothesis over grids x electrode sets (node/edge/face-aware, all "
+    "coordinate formats and call forms); oracles: conservation of moment, "
+    "support set from checker-side slab clipping, scaling law, round trips "
+    "of the conversion functions, loop geometry (vector area)",
+    "Exploration: dipoles and wires with 2..8 electrodes anywhere in the "
+    "closed grid box (strictly inside, on nodes/edges/faces, in lower and "
+    "upper boundary faces, axis-aligned and oblique, UTM-like offsets), "
+    "point sources over the full azimuth/elevation range, magnetic dipoles; "
+    "per-component sum == last - first electrode (1e-9 L), no normalisation "
+    "warning, all entries finite, support within touched cells, sfield == "
+    "vfield * strength * (-s mu0), conversions round-trip, the magnetic "
+    "loop is closed, planar, square, with vector area = length * "
+    "direction.",
+    "Trusted: checker-side clipping and closed formulas in "
+    "vp/checks/c10_sources.py. The property fixes sum and support only: a "
+    "wrong distribution inside the touched cells that keeps the sum is "
+    "seen by C09/C07, not here.")
+
 NOT_BUILT = "check not built yet (see DESIGN.md section 3 for the plan)"
 
 
